@@ -66,17 +66,28 @@ theorem no_call_under_lock : ∀ s ∈ Gen.lockSites, s.otherCalls = [] ∧ s.ne
 
 theorem scan_complete : Gen.scanUnknown = [] := by decide
 
-/-- The lock sites, by function: exactly these sixteen. -/
-theorem lock_site_inventory : Gen.lockSites.map (fun s => (s.func, s.mutates)) = [
-    ("Context::set".toList, true), ("Context::get".toList, false),
-    ("DescriptorManager::set".toList, true), ("DescriptorManager::get".toList, false),
-    ("InnerFunctionManager::register".toList, true), ("InnerFunctionManager::get".toList, false),
-    ("InfixOpManager::register".toList, true), ("InfixOpManager::get".toList, false),
-    ("InfixOpManager::operators".toList, false), ("InfixOpManager::exist".toList, false),
-    ("PrefixOpManager::register".toList, true), ("PrefixOpManager::get".toList, false),
-    ("PrefixOpManager::exist".toList, false),
-    ("PostfixOpManager::register".toList, true), ("PostfixOpManager::get".toList, false),
-    ("PostfixOpManager::exist".toList, false)] := by decide
+/-- The functions that write a registry or a context under its lock. -/
+def lockWriters : List (List Char) := [
+  "Context::set".toList, "DescriptorManager::set".toList, "InnerFunctionManager::register".toList,
+  "InfixOpManager::register".toList, "PrefixOpManager::register".toList, "PostfixOpManager::register".toList]
+
+/-- The types that own a mutex. -/
+def lockOwners : List (List Char) := [
+  "Context::".toList, "DescriptorManager::".toList, "InnerFunctionManager::".toList,
+  "InfixOpManager::".toList, "PrefixOpManager::".toList, "PostfixOpManager::".toList]
+
+/-- Every lock is taken inside a method of one of the six owning types; a guard under which the map is
+modified lives in one of the six writer functions only (readers may come and go with refactorings —
+each is still subject to `no_call_under_lock`). -/
+theorem lock_site_owners : ∀ s ∈ Gen.lockSites, lockOwners.any (fun o => o.isPrefixOf s.func) = true := by decide
+theorem lock_site_writers : ∀ s ∈ Gen.lockSites, s.mutates = true → s.func ∈ lockWriters := by decide
+
+/-- Each writer is a *single* critical section: the registration (look-up of the old entry, insertion of
+the new one) happens under one guard, so that it takes effect entirely before or entirely after any
+read (C13). -/
+theorem writers_single_critical_section :
+    ∀ w ∈ lockWriters, (Gen.lockSites.filter (fun s => s.func = w)).length = 1 ∧
+      ∀ s ∈ Gen.lockSites, s.func = w → s.mutates = true := by decide
 
 /-! ### Global mutable state -/
 
